@@ -74,7 +74,7 @@ def selftest():
     assert not _polygon_ok(box(0.5, -0.5, 2.5, 1.5), d, 0)        # area 4 != 3
     assert not _polygon_ok(shapely.affinity.translate(good, 1, 0), d, 0)
     assert _expected_regions(ref.Defs(np.array([[1, 0, 1]]))) == 2
-    assert _expected_regions(ref.Defs(np.array([[1, 2]]))) == 1
+    assert _expected_regions(ref.Defs(np.array([[1, 2]]))) == 2
 
 
 # ----------------------------------------------------------------------
@@ -101,9 +101,10 @@ def _polygon_ok(poly, D, i):
 
 
 def _expected_regions(D):
-    """Entries the known mechanism yields: one per 8-connected region, minus the
-    first region of the lowest label when there is no background."""
-    return sum(D.ncomp) - (1 if D.no_background else 0)
+    """Entries the known mechanism yields: one per 8-connected region (the
+    additional drop of one region on arrays without background was fixed in
+    photutils commit a8c8e59)."""
+    return sum(D.ncomp)
 
 
 def _poly_flags(D):
